@@ -30,6 +30,9 @@ Table == <<
   Wd(">=", <<"real", "real">>, "computes"), Wd("==", <<"int", "int">>, "computes"), Wd("<>", <<"int", "int">>, "computes"),
   Wd("and", <<"flag", "flag">>, "computes"), Wd("or", <<"flag", "flag">>, "computes"), Wd("xor", <<"flag", "flag">>, "computes"),
   Wd("not", <<"flag">>, "computes"),
+  Wd("rem", <<"int", "zero">>, "computes"), Wd("/", <<"int", "zero">>, "computes"), Wd("rem", <<"zero", "int">>, "computes"),
+  \* the tag words given a tag MAP that carries tags itself
+  Wd("with-tags tags", <<"int", "map">>, "moves"), Wd("with-tags 1 +", <<"int", "map">>, "computes"), Wd("with-tags 1 get-tag", <<"str", "map">>, "moves"),
   \* words that consume a condition (nil counts as false)
   Wd("if 1 else 2 then", <<"flag">>, "computes"), Wd("if 1 else 2 then", <<"nil">>, "computes"),
   Wd("assert 3", <<"flag">>, "computes"), Wd("assert 3", <<"nil">>, "computes"),
@@ -91,5 +94,7 @@ Carriers == << <<"", "var zv zv">>, <<"#(", "const zk #) zk">>, <<"#(", "#)">>, 
                <<"", "let zq zq">>, <<": zh #(", "#) ; zh">>, <<"[ #(", "#) ] 0 get">> >>
 CarryTypes == <<"int", "zero", "real", "flag", "nil", "str", "vec", "map", "bits">>
 
-TagMaps == << "{ } with-tags", "{ 1 \"z\" } with-tags", "^hex", "{ 9 \"t\" \"u\" insert-tag \"z\" } with-tags" >>
+\* (the 5th and 6th tag a value that is tagged already)
+TagMaps == << "{ } with-tags", "{ 1 \"z\" } with-tags", "^hex", "{ 9 \"t\" \"u\" insert-tag \"z\" } with-tags",
+             "1 \"a\" insert-tag 2 \"b\" insert-tag", "{ 1 \"z\" } with-tags 3 \"y\" insert-tag \"z\" remove-tag" >>
 =============================================================================
